@@ -483,6 +483,17 @@ class WsgiApplication(HttpBase):
                 first_obj = next(g)
             except StopIteration:
                 pass  # the generator is empty; leave it in place, exhausted.
+            except Exception as e:
+                # the user code failed before its first yield: this is where
+                # it actually starts to run.
+                if not isinstance(e, Fault):
+                    logger.exception(e)
+                    e = Fault('Server', get_fault_string_from_exception(e))
+
+                p_ctx.out_error = e
+                p_ctx.fire_event('method_exception_object')
+                return self.handle_error(p_ctx, others, p_ctx.out_error,
+                                                                 start_response)
             else:
                 p_ctx.out_object = ( chain((first_obj,), g), )
 
